@@ -36,6 +36,7 @@ RULE = ("5 integral defuzzifiers x resolution {1,2,3,5,10,100, random <= 100, in
         "decimal/random parameters, also Gaussian/Bell/Sigmoid/Cosine/Spike/product terms, continuous norms only. Arc and "
         "SemiEllipse are left to C03 (F1/F2). A case is non-trivial when some result is finite; distinct = distinct input")
 RULE += (" Stream `midpoints` (fv/streams/midpoints.py): Op.midpoints at resolutions 1..5 (and 7, 16, 100) on reversed, empty, infinite and NaN ranges against Op.Integral.midpoints.")
+RULE += (" Family `shared term`: sets of both families in which 1-3 further activations hold the SAME term object as an earlier one (rules sharing a consequent), each with its own scalar / batch degree, the dyadic ones under each of the 7x9 implication x aggregation pairs in turn: the set is the aggregation of the implied terms activation by activation.")
 RULE += (" Family `declared range`: the sets of both families held in Aggregated objects whose own (minimum, maximum) is NaN, equal to, wider / narrower than, shifted against, disjoint from the range handed to defuzzify, half-NaN, infinite, reversed or a point (it stays put when terms and range are translated): the sampled set and all five points depend on the range of the call only.")
 ASSUMPTIONS = ["the model evaluates the memberships at the float sample points the implementation computed (Op.midpoints is "
                "compared separately against the exact midpoints)",
@@ -98,6 +99,10 @@ def build(case, row=None, shift=0.0):
         if shift:
             ps = [p + shift if j in POS[a["cls"]] else p for j, p in enumerate(ps)]
         term = getattr(fl, a["cls"])(f"t{i}", *ps, height=float(a["h"]))
+        if a.get("same") is not None:
+            # two rules with the same consequent: this activation holds the very term OBJECT of an earlier activation
+            # (RuleBlock activation appends Activated(variable.term(name), degree, implication) for every such rule)
+            term = terms[int(a["same"])].term
         d = a["deg"]
         if isinstance(d, list):
             d = fl_num(d[row]) if row is not None else np.array([fl_num(v) for v in d], dtype=float)
@@ -239,7 +244,8 @@ def key(case):
         return case["stream"]
     return (f"fam={case.get('fam')};r={case.get('r')};batch={batch_size(case) if is_batch(case) else 0};"
             f"terms={len(case.get('acts', []))};agg={case.get('agg')}"
-            + (f";declared={case.get('rel')}" if "declared" in case else ""))
+            + (f";declared={case.get('rel')}" if "declared" in case else "")
+            + (f";shared={sum(1 for a in case['acts'] if a.get('same') is not None)}" if case.get("fam2") == "shared term" else ""))
 
 
 def tol(case):
@@ -528,6 +534,56 @@ def gen_declared(ctx, n):
         yield case
 
 
+def gen_shared_term(ctx, n):
+    """the aggregated set of the property is made of ACTIVATIONS (term, degree, implication), and nothing says that their terms
+    are different objects: two or more rules with the same consequent activate the same term of the output variable, each
+    with its own degree.  The set is still (+)_i (d_i (x) mu_i(x)), activation by activation - which is NOT ((+)_i d_i) (x) mu
+    unless the operators happen to distribute.  Sets of both families in which 1-3 further activations share the term object
+    of an earlier one, with their own degrees (scalar and batch; equal, different, 0, 1) and mostly the implication of the
+    first (one rule block) - the dyadic ones under EVERY implication x EVERY aggregation (each pair in turn)"""
+    rng = ctx.rng
+    pairs = [(t, s) for t in TN for s in SN]
+    rng.shuffle(pairs)
+    n_dy = max(len(pairs), (2 * n) // 3)
+    for k in range(n):
+        dyadic = k < n_dy
+        case = next(gen_dyadic(ctx, 1)) if dyadic else next(gen_general(ctx, 1))
+        if int(case["r"]) > 100:
+            continue                              # (the grid of a dyadic case depends on r)
+        lo, hi, r = float(case["lo"]), float(case["hi"]), int(case["r"])
+        acts = [a for a in case["acts"]][:3]
+        if not acts:
+            cls = rng.choice(DY_CLASSES[:7] if dyadic else POLY[:7])
+            acts = [{"cls": cls, "params": dyadic_term(rng, cls, lo, (hi - lo) / r, r) if dyadic else general_term(rng, cls, lo, hi),
+                     "h": rng.choice(DY_H), "impl": "Minimum", "deg": 0.5}]
+        batch = batch_size(case) if is_batch(case) else 0
+        if dyadic:
+            impl, agg = pairs[k % len(pairs)]
+            case["agg"] = agg
+            for a in acts:
+                if rng.random() < 0.85:
+                    a["impl"] = impl
+        pool = DY_DEG if dyadic else [rng.random(), rng.random(), 0.0, 1.0, 0.5, 0.25]
+        for a in acts:
+            if batch and not isinstance(a["deg"], list):
+                a["deg"] = degree(rng, pool, batch)
+        for _ in range(rng.choice([1, 1, 2, 3])):
+            if len(acts) >= 5:
+                break
+            j = rng.randrange(len(acts))
+            src = j if acts[j].get("same") is None else acts[j]["same"]
+            twin = {**acts[src], "same": src, "deg": degree(rng, pool, batch)}
+            if rng.random() < 0.15:
+                twin["impl"] = rng.choice(TN if dyadic else TN_CONT)
+            u = rng.random()
+            if u < 0.15:
+                twin["deg"] = acts[src]["deg"]                      # two rules firing equally
+            acts.append(twin)
+        case["acts"] = acts
+        case["fam2"] = "shared term"
+        yield case
+
+
 def gen_errors(ctx):
     t = {"cls": "Triangle", "params": [0.0, 1.0, 2.0], "h": 1.0, "impl": "Minimum", "deg": 0.5}
     yield {"fam": "error", "lo": 0.0, "hi": 2.0, "r": 4, "agg": None, "acts": [t]}
@@ -705,7 +761,20 @@ def correspond(ctx):
                 continue
             more.append((case, x))
     judge(ctx, more, ctx.driver.eval([line(c, x) for c, x in more]), mism, every=1)
+    # drawn after every earlier stream: several activations of the SAME term object (rules sharing a consequent)
+    more = []
+    with np.errstate(all="ignore"):
+        for case in gen_shared_term(ctx, ctx.scale(190, 950)):
+            x = sample_points(case)
+            if fragile(case, x):
+                st.skipped_fragile += 1
+                continue
+            more.append((case, x))
+    judge(ctx, more, ctx.driver.eval([line(c, x) for c, x in more]), mism, every=1)
     return mism
+
+
+SHARED_PAIRS = set()   # (implication, aggregation) pairs met with two activations of one term object in this run
 
 
 def judge(ctx, todo, outs, mism, every):
@@ -716,6 +785,12 @@ def judge(ctx, todo, outs, mism, every):
         st.count(case.get("fam", "corpus"))
         if "declared" in case:
             st.count("declared range: " + case["rel"])
+        if case.get("fam2"):
+            st.count(case["fam2"])
+            twins = [a for a in case["acts"] if a.get("same") is not None and a["impl"] == case["acts"][a["same"]]["impl"]]
+            seen = SHARED_PAIRS
+            seen.update((a["impl"], case["agg"]) for a in twins)
+            ctx.notes["shared_term_implication_x_aggregation_pairs"] = len(seen)
         st.count(f"r<={10 if case['r'] <= 10 else 100 if case['r'] <= 100 else 1000}")
         st.count(f"terms={len(case['acts'])}")
         if is_batch(case):
@@ -745,7 +820,7 @@ def judge(ctx, todo, outs, mism, every):
 
 
 def search(ctx):
-    for case in itertools.chain(cases(ctx), gen_declared(ctx, ctx.scale(220, 1100))):
+    for case in itertools.chain(cases(ctx), gen_declared(ctx, ctx.scale(220, 1100)), gen_shared_term(ctx, ctx.scale(190, 950))):
         ok, d = oracle(case)
         if not ok:
             return [(case, d)]
